@@ -244,24 +244,32 @@ def memsize_fns(res, fx=None):
     """functions whose integer results are computed only from constants, lengths of in-memory collections and other such
     functions (in-memory size computations)"""
     ms = set()
+    _TRAIT_IMPLS["fx"] = fx
+    _TRAIT_IMPLS["analysed"] = set(getattr(res, "interps", {}) or {})
     acc = fold_accumulators(fx, res) if fx is not None else {}
+    # greatest fixpoint: start from every function with a summary and remove those with a root that is not an in-memory size
+    # term given the remaining set.  (The least fixpoint cannot see through `size_of_opt<T>` <-> `T::box_size`, which are
+    # mutually dependent only in the "every impl" approximation; real recursion is excluded by PF.recursion.)
+    ms = {f for f, summ in res.summaries.items() if summ}
     changed = True
     while changed:
         changed = False
-        for f, summ in res.summaries.items():
-            if f in ms:
-                continue
+        for f in sorted(ms):
+            summ = res.summaries[f]
             ok = True
             for sub, (lo, hi, prov) in summ.items():
                 for r in prov:
                     if f in acc and r == acc[f][0] and all(mem_root(x, ms) for x in acc[f][1]):
                         continue
-                    if not mem_root(r, ms):
+                    if not mem_root(r, ms, f):
                         ok = False
-            if ok and summ:
-                ms.add(f)
+            if not ok:
+                ms.discard(f)
                 changed = True
     return ms, acc
+
+
+_TRAIT_IMPLS = {}
 
 
 def mem_root(r, ms, fid=None, acc=None):
@@ -269,6 +277,24 @@ def mem_root(r, ms, fid=None, acc=None):
         return True
     if r.startswith("CALL:"):
         return r[5:] in ms
+    if r.startswith("X:") and _TRAIT_IMPLS.get("fx") is not None:
+        # a trait method called on a type parameter (`T::box_size` inside a generic helper): whichever impl the
+        # instantiation selects, the value is an in-memory size term when every local impl of that method is one
+        fx = _TRAIT_IMPLS["fx"]
+        decl = r[2:]
+        tr, _, m = decl.rpartition("::")
+        impls = [f["id"] for f in fx.fns.values() if f["name"] == m and ((f.get("impl") or {}).get("trait_path") or "") == tr]
+        # impls outside the analysed closure cannot be what an instantiation reachable from the entry points selects
+        analysed = _TRAIT_IMPLS.get("analysed")
+        if analysed is not None:
+            impls = [i for i in impls if i in analysed]
+        if fid is not None:
+            # the instantiations of the generic function the call sits in select the impls
+            from callgraph import callgraph as _cg
+            types = _cg(fx).instantiations(fid.split("::{closure")[0])
+            if types:
+                impls = [i for i in impls if ((fx.fns[i].get("impl") or {}).get("self_ty") or "") in types]
+        return bool(impls) and all(i in ms for i in impls)
     if acc and fid in acc and r == acc[fid][0] and fid in ms:
         return True       # accumulator of a fold whose initial value and step results are in-memory size terms
     return False
